@@ -12,7 +12,7 @@ RULE = (
 )
 ASSUMPTIONS = ["the order of edge statements among themselves is not part of the statement and is not checked",
                "known finding dot-edge-to-stopped-child is accepted only when the surplus edges are exactly the predicted ones"]
-GATES = ["mon.C12.export", "C12.edges_checked", "C12.maxlevel0", "C12.stop_and_filter", "C12.colliding_names", "C12.hostile_names", "C12.custom", "C12.to_dotfile", "C12.rendertreegraph", "C12.predicate_change", "C12.value_semantics_nodes", "C12.attribute_reassigned", "C12.tree_changed_between_iterations", "C12.aborted_iteration_then_reuse"]
+GATES = ["mon.C12.export", "C12.edges_checked", "C12.maxlevel0", "C12.stop_and_filter", "C12.colliding_names", "C12.hostile_names", "C12.custom", "C12.to_dotfile", "C12.rendertreegraph", "C12.predicate_change", "C12.value_semantics_nodes", "C12.attribute_reassigned", "C12.tree_changed_between_iterations", "C12.aborted_iteration_then_reuse", "C12.custom_function_returns_none", "C12.falsy_nodes"]
 
 
 def plan(tier, seed, jobs):
@@ -70,6 +70,9 @@ def run(ctx):
         valsem = rng.random() < 0.3
         if valsem:
             ctx.count("C12.value_semantics_nodes")
+        elif rng.random() < 0.3:
+            valsem = "falsy"
+            ctx.count("C12.falsy_nodes")
         nodes = G.build(par, names, valsem)
         idmap = {id(o): i for i, o in enumerate(nodes)}
         case = {"par": list(par), "names": names, "value_semantics": valsem}
